@@ -81,10 +81,10 @@ package module
 //@   xensures[C20] !typeis(arguments[0], sliceof(V))
 //@   loop 1:
 //@     invariant -1 <= rangeindex && rangeindex <= 0 && rangeindex < len(arguments) && notation != nil
-//@     invariant rangeindex == -1 ==> size == 0 && len(values) == 0 && arr(values) == nil && sequence == nil && source == ""
-//@     invariant rangeindex == 0 && typeis(arguments[0], "uint") ==> size == unboxInt(arguments[0]) && len(values) == 0 && sequence == nil && source == ""
-//@     invariant rangeindex == 0 && typeis(arguments[0], sliceof(V)) ==> size == 0 && values == unboxSlice(arguments[0]) && sequence == nil && source == ""
-//@     invariant rangeindex == 0 && typeis(arguments[0], "string") ==> size == 0 && source == unboxStr(arguments[0]) && len(values) == 0 && sequence == nil
+//@     invariant rangeindex == -1 ==> size == 0 && !hasValues && len(values) == 0 && arr(values) == nil && sequence == nil && source == ""
+//@     invariant rangeindex == 0 && typeis(arguments[0], "uint") ==> size == unboxInt(arguments[0]) && !hasValues && len(values) == 0 && sequence == nil && source == ""
+//@     invariant rangeindex == 0 && typeis(arguments[0], sliceof(V)) ==> size == 0 && hasValues && values == unboxSlice(arguments[0]) && sequence == nil && source == ""
+//@     invariant rangeindex == 0 && typeis(arguments[0], "string") ==> size == 0 && source == unboxStr(arguments[0]) && !hasValues && len(values) == 0 && sequence == nil
 //@     decreases 1 - rangeindex
 //@   loop 2:
 //@     invariant array != nil && fresh(array) && snap(iterator) == view(parsedval(source)) && 0 <= pos(iterator) && pos(iterator) <= len(snap(iterator)) && index == pos(iterator) + 1
